@@ -300,7 +300,8 @@ class DataOps:
                     break
 
     def _by(self, d, k, exclude=('ouid', 'cuid')):
-        keys = [x for x in d.keys() if x not in exclude] + [x for x in ('ouid', 'cuid') if x in d]
+        keys = sorted(x for x in d.keys() if x not in exclude) + [x for x in ('ouid', 'cuid') if x in d]      # never by dict order
+        # (merge_datasets and from_df order descriptor keys by iterating sets)
         return keys[k % len(keys)] if keys else None
 
     @staticmethod
@@ -323,7 +324,7 @@ class DataOps:
         if by is None:
             return False
         if axis == 'time':
-            by = list(d.keys())[o['a'][0] % len(d)]
+            by = sorted(d.keys())[o['a'][0] % len(d)]
         vals = normlist(d[by])
         if len({type(v) for v in vals}) != 1:
             return False
@@ -549,7 +550,7 @@ class DataOps:
         src = self.pick(o, kinds=('dataset',))
         if src is None:
             return False
-        keys = [k for k in src.obj.obs_descriptors.keys()]
+        keys = sorted(src.obj.obs_descriptors.keys())
         if len(keys) < 2:
             return False
         l1 = keys[o['a'][0] % len(keys)]
